@@ -78,7 +78,7 @@ func (c14) NumCases(tier string, seed int64) int {
 		gen = 400
 	}
 	// per corpus file: 3 cases (prefixes, token mutations, mutations with the file's own opener)
-	return n*3 + c14Specials + gen
+	return n*3 + c14Specials + len(c14DevTargets) + gen
 }
 
 // tokens splits YANG text into lexical tokens (strings and comments kept whole), with byte offsets.
@@ -216,6 +216,8 @@ func (p c14) Run(c *core.Ctx, idx int) {
 		p.tokenMutations(c, files[idx-2*n], true)
 	case idx < 3*n+c14Specials:
 		p.special(c, idx-3*n)
+	case idx < 3*n+c14Specials+len(c14DevTargets):
+		p.deviations(c, idx-3*n-c14Specials)
 	default:
 		p.generated(c, idx)
 	}
@@ -510,6 +512,60 @@ func (p c14) special(c *core.Ctx, k int) {
 	out := c14Load(c, "special/"+s.name, "special", op, s.text, s.byName)
 	c.Shape("special/%s/%s", s.name, out)
 	c.SetSample(map[string]interface{}{"special": s.name, "outcome": out, "text": quoteHead(s.text, 200)})
+}
+
+// deviations: every kind of deviation target x every deviate form x every sub-statement a deviate can carry, most of which the target
+// does not support. Each of them has to end in a module or an error (a panic inside the deviation code is what this family looks for).
+var c14DevTargets = []struct{ name, body, path string }{
+	{"leaf", "leaf t { type string; }", "/t"},
+	{"leaf-with-default", "leaf t { type string; default d; units u; }", "/t"},
+	{"leaf-list", "leaf-list t { type string; default a; default b; }", "/t"},
+	{"container", "container t { leaf x { type string; } }", "/t"},
+	{"presence-container", "container t { presence p; }", "/t"},
+	{"list", "list t { key k; unique \"u v\"; leaf k { type string; } leaf u { type string; } leaf v { type string; } }", "/t"},
+	{"choice", "choice t { default a; case a { leaf al { type string; } } case b { leaf bl { type string; } } }", "/t"},
+	{"case", "choice ch { case t { leaf al { type string; } } case b { leaf bl { type string; } } }", "/ch/t"},
+	{"implied-case", "choice ch { leaf t { type string; } leaf other { type string; } }", "/ch/t"},
+	{"case-in-container", "container c { } augment \"/c\" { case t { leaf l { type string; } } }", "/c/t"},
+	{"anydata", "anydata t;", "/t"},
+	{"anyxml", "anyxml t;", "/t"},
+	{"rpc", "rpc t { input { leaf i { type string; } } }", "/t"},
+	{"rpc-input", "rpc r { input { leaf i { type string; } } }", "/r/input"},
+	{"rpc-input-leaf", "rpc r { input { leaf i { type string; } } }", "/r/input/i"},
+	{"action", "container c { action t { input { leaf i { type string; } } } }", "/c/t"},
+	{"notification", "notification t { leaf l { type string; } }", "/t"},
+	{"nested-notification", "container c { notification t { leaf l { type string; } } }", "/c/t"},
+	{"leaf-of-grouping-used-twice", "grouping g { leaf t { type string; default d; } } container c1 { uses g; } container c2 { uses g; }", "/c1/t"},
+	{"list-key-leaf", "list l { key t; leaf t { type string; } }", "/l/t"},
+}
+
+var c14DevSubs = []string{
+	"units \"u\";", "default \"d\";", "default a;", "default \"a\"; default \"b\";", "config false;", "config true;", "mandatory true;", "mandatory false;",
+	"min-elements 1;", "max-elements 3;", "max-elements unbounded;", "unique \"u v\";", "unique \"u\";", "must \"1\";", "type int32;", "type string { length 1..3; }",
+	"units \"u\"; default \"d\";", "config false; mandatory true;", "",
+}
+
+func (p c14) deviations(c *core.Ctx, k int) {
+	t := c14DevTargets[k]
+	outcomes := map[string]int{}
+	run := func(form, dev string) {
+		text := hdr("m") + t.body + " deviation \"" + t.path + "\" { " + dev + " } }"
+		o := c14Load(c, "deviation/"+t.name+"/"+form, "deviation", nil, text, "")
+		outcomes[form+"/"+o]++
+	}
+	run("not-supported", "deviate not-supported;")
+	for _, kind := range []string{"add", "replace", "delete"} {
+		for _, sub := range c14DevSubs {
+			run(kind, "deviate "+kind+" { "+sub+" }")
+		}
+	}
+	// two deviate statements in one deviation, and a deviation after not-supported
+	run("add+delete", "deviate add { must \"1\"; } deviate delete { default \"d\"; }")
+	run("not-supported+add", "deviate not-supported; deviate add { default \"d\"; }")
+	for o, n := range outcomes {
+		c.Shape("deviation/%s/%s/%d", t.name, o, n)
+	}
+	c.SetSample(map[string]interface{}{"deviation-target": t.name, "body": t.body, "outcomes": outcomes})
 }
 
 func (p c14) generated(c *core.Ctx, idx int) {
